@@ -200,6 +200,8 @@ def oracle_path(case):
         raise Violation(f"{label}: path raised ValueError: {e}")
     except Exception as e:
         raise Violation(f"{label}: path raised {type(e).__name__}: {e}")
+    if est.alpha != s["alpha"]:
+        raise Violation(f"{label}: path() left the estimator's alpha at {est.alpha!r}, it was constructed with {s['alpha']!r}")
     if not (isinstance(res, tuple) and len(res) == 5):
         raise Violation(f"{label}: path returned {type(res).__name__} of length {len(res) if hasattr(res, '__len__') else '?'}")
     best_weights, geminis, penalties, alphas, n_features = res
